@@ -233,12 +233,14 @@ theorem create_existing {t : Tree} {path : String} {p : Path} {s : List Nat} {v 
   constructor <;> intro hs <;> simp [create, openW, openOrCreate, hod, hs]
 
 /-- T5'. `Create` of a path at which nothing exists yet (in a file that exists) makes a dataset of that shape that
-reads as zeros, and leaves every object that existed unchanged. -/
+reads as zeros, leaves every object that existed unchanged, and keeps the file well-formed (`WF`: every dataset holds
+as many elements as its shape says — the hypothesis of T3/T4 on the file). Extents may be 0 (`0 ≤ x`): ow-sim creates
+`count × 0 × 0` datasets for models without inputs; such a dataset reads as the empty list. -/
 theorem create_new {t t' : Tree} {path : String} {shape : Idx} (hpos : ∀ x ∈ shape, 0 ≤ x)
     (hno : ∀ p s v, openDataset t path ≠ .ok (p, s, v))
     (hc : create (some t) path shape = (some t', .ok ())) :
     load false (some t') path none = .ok (shape, List.replicate (product shape).toNat 0) ∧
-    (∀ r, find t r ≠ none → find t' r = find t r) := by
+    (∀ r, find t r ≠ none → find t' r = find t r) ∧ (WF t → WF t') := by
   unfold create at hc
   simp only [openW] at hc
   split at hc
@@ -252,12 +254,12 @@ theorem create_new {t t' : Tree} {path : String} {shape : Idx} (hpos : ∀ x ∈
       split at hoc
       · rename_i p' s v hod; exact absurd hod (hno p' s v)
       · exact hoc
-    obtain ⟨h1, h2, h3, h4, -⟩ := createDs_ok _ _ _ (Nat.le_refl _) _ _ _ _ hcd
+    obtain ⟨h1, h2, h3, h4, h5⟩ := createDs_ok _ _ _ (Nat.le_refl _) _ _ _ _ hcd
     have hp : p = splitPath path := by rw [h1, List.nil_append]; rfl
     have hpne : p ≠ [] := by rw [h1]; simpa using h2
     have hod : openDataset t1 path = .ok (p, intsToUints shape, List.replicate (prodN (intsToUints shape)) 0) :=
       openDataset_eq.mpr ⟨hp, hpne, h3⟩
-    refine ⟨?_, h4⟩
+    refine ⟨?_, h4, h5⟩
     have hn : prodN (intsToUints shape) = (product shape).toNat := by
       have := prodN_intsToUints hpos
       omega
